@@ -43,6 +43,26 @@ def _laws(p, x, out):
             out.append(("split then join gives back an equivalent path", "%r -> (%r, %r) -> %r" % (x, h, t, j)))
 
 
+def replay(rp):
+    """re-evaluates the recorded law on the recorded path against the real code; True = the law holds (not reproduced)"""
+    import os
+    repo = os.environ.get("VERIF_REPO", "/repo")
+    if repo not in sys.path:
+        sys.path.insert(0, repo)
+    from pyvc import fixtures as F
+    from pyvc.fixtures_concrete import provider_class
+    cfg = [c for c in F.PROVIDER_CONFIGS if c["name"] == rp["config"]][0]
+    out = []
+    try:
+        _laws(provider_class(cfg)(), rp["path"], out)
+    except Exception as e:
+        out.append(("no exception", str(e)))
+    bad = [d for law, d in out if law == rp["law"]]
+    for d in bad:
+        print("law %r fails: %s" % (rp["law"], d))
+    return not bad
+
+
 def run(repo, tier, seed):
     if repo not in sys.path:
         sys.path.insert(0, repo)
@@ -50,7 +70,7 @@ def run(repo, tier, seed):
     from pyvc.fixtures_concrete import provider_class
     import logging
     logging.disable(logging.CRITICAL)
-    maxlen = 5 if tier == "quick" else 6
+    maxlen = 5      # thorough widens the conventions (all 12) and the token sequences (7), not the raw length
     cfgs = [F.PROVIDER_CONFIGS[i] for i in F.QUICK_PROVIDER_CONFIGS] if tier == "quick" else F.PROVIDER_CONFIGS
     failures, samples, seen = [], [], set()
     evaluations = 0
@@ -75,7 +95,8 @@ def run(repo, tier, seed):
                     seen.add(key)
                     failures.append({"what": "%s: %s: %s" % (cfg["name"], law, detail),
                                      "witness": {"config": cfg["name"], "path": x, "law": law, "detail": detail},
-                                     "replay_data": {"config": cfg["name"], "path": x, "law": law}})
+                                     "replay_data": {"config": cfg["name"], "path": x, "law": law,
+                                                     "replay_module": "contracts.bounded_paths.replay"}})
                 if len(samples) < 3 and n == 3:
                     samples.append({"config": cfg["name"], "path": x})
     return {"name": "normalize_path_body_and_split_join_equivalence",
